@@ -15,7 +15,7 @@ ASSUMPTIONS = [
     "port names distinct from 'Depot' and 'Dum<k>'; add_entry_arcs called at most once (a second call re-uses Dum0 and the code raises)",
     "the depot window is [0, inf) (as MIRP.__init__ creates it), so every exit arc passes the timing filter",
     "exact-specified arc set is checked for the canonical helper order (nodes, travel, exit, entry) and for permutations of the last three",
-    "real-valued instances (G1, random generator): checked by the oracle on the real graph only; expected time/cost are recomputed with the same float operations",
+    "real-valued instances (G1, random generator): the helper calls the package makes are recorded and replayed on the model with the exact values of the floats; discrete structure compared exactly, float data at 1e-9 (near-ties of the timing filter skipped and counted); plus the oracle on the real graph",
 ]
 PARTIAL = []
 BUDGET_S = {"quick": 90, "thorough": 900}
